@@ -1,4 +1,5 @@
 """C01 -- optimization never changes what a query computes."""
+import c01_concat
 import common
 import preds
 import progcheck
@@ -12,7 +13,9 @@ def run(run):
     ]
     run.rule = ("seeded program generator over the public API (chains, shared sub-expressions, filters with and/or/not/isna predicates, assign, rename, drop, fillna, "
                 "reductions) x data with nulls x layouts (1-4 partitions, unknown divisions, arbitrary cuts): every optimizer stage vs the unoptimized lowered plan; "
-                "every logged rewrite step of the fragment validated by the verified rule_ok; non-trivial = program with >= 2 steps")
+                "every logged rewrite step of the fragment validated by the verified rule_ok; non-trivial = program with >= 2 steps; "
+                "column selections over concats of differently derived inputs (label-keeping / relabelling / reordering / row-dropping / repartitioning histories x "
+                "index kinds x layouts x joins x consumers) vs the unoptimized lowered plan incl. the names of the index levels")
     run.proofs("PropC01.v")
     quick = run.tier == "quick"
     m = common.Model()
@@ -20,6 +23,8 @@ def run(run):
     progcheck.run_programs(run, {"C01", "C19"}, 250 if quick else 6000, profile="l1", own={"C01"})
     progcheck.run_programs(run, {"C01", "C19"}, 150 if quick else 4000, profile="l2", own={"C01"}, with_steps=False)
     value_changing(run)
+    import rt
+    c01_concat.run_family(run, rt)
 
 
 def value_changing(run):
